@@ -186,6 +186,30 @@ def maskSize (m : Bytes) : Int × Int :=
 53-bit mantissa, as `Model/Client.lean` computes it (trusted for durations of whole seconds; DESIGN.md §13.3). -/
 def durTimesFloat (d : Int) (num den : Nat) : Int := Int.ofNat (round53 (d.toNat * num / den))
 
+/-! Standard-library parsers the configuration code calls: uninterpreted (nothing is known about their values
+beyond what a theorem assumes explicitly; the correspondence harness parses with the very same Go functions). -/
+structure IPNet where
+  IP : Bytes
+  Mask : Bytes
+deriving DecidableEq, Repr
+
+def IPNet.zero : IPNet := { IP := [], Mask := [] }
+
+opaque parseIP : Bytes → Bytes
+opaque parseCIDR : Bytes → Bytes × Option IPNet × GoErr
+opaque parseDuration : Bytes → Int × GoErr
+opaque parseMAC : Bytes → Bytes × GoErr
+
+/-- `strings.Split(s, sep)` for a non-empty separator. -/
+def splitAux (sep : Bytes) : Nat → Bytes → Bytes → List Bytes
+  | 0, _, acc => [acc]
+  | _ + 1, [], acc => [acc]
+  | n + 1, c :: rest, acc =>
+    if sep.isPrefixOf (c :: rest) ∧ ¬ sep.isEmpty then acc :: splitAux sep n ((c :: rest).drop sep.length) []
+    else splitAux sep n rest (acc ++ [c])
+
+def stringsSplit (s sep : Bytes) : List Bytes := splitAux sep (s.length + 1) s []
+
 /-- A socket handle: what is read from and written to it goes through the environment. -/
 abbrev Sock := Unit
 
